@@ -82,6 +82,8 @@ def Ev.swap : Ev → Ev
   | .release x => .release (!x)
   | .sendRaa x => .sendRaa (!x)
   | .recv y => .recv (!y)
+  | .disconnect => .disconnect
+  | .reest y => .reest (!y)
 
 @[simp] theorem Sys.swap_swap (s : Sys) : s.swap.swap = s := by cases s; rfl
 @[simp] theorem Ev.swap_swap (e : Ev) : e.swap.swap = e := by cases e <;> simp [Ev.swap]
@@ -91,35 +93,66 @@ theorem step_swap (s : Sys) (e : Ev) : step s.swap e.swap = (step s e).map Sys.s
   | commit x adds fu fa =>
     cases x
     · simp only [Ev.swap, step, Sys.swap, Bool.not_false]
+      by_cases hp : s.b.paused = true
+      · simp [hp]
+      simp only [hp, if_false]
       by_cases h : s.pendB = []
       · cases s.b.commit adds fu fa <;> simp [h, Sys.swap]
       · simp [h]
     · simp only [Ev.swap, step, Sys.swap, Bool.not_true]
+      by_cases hp : s.a.paused = true
+      · simp [hp]
+      simp only [hp, if_false]
       by_cases h : s.pendA = []
       · cases s.a.commit adds fu fa <;> simp [h, Sys.swap]
       · simp [h]
   | release x =>
     cases x
     · simp only [Ev.swap, step, Sys.swap, Bool.not_false]
+      by_cases hp : s.b.paused = true
+      · simp [hp]
+      simp only [hp, if_false]
       by_cases h1 : s.pendB = [] <;> by_cases h2 : s.b.raaSent < s.needRaaB <;> simp [h1, h2, Sys.swap]
     · simp only [Ev.swap, step, Sys.swap, Bool.not_true]
+      by_cases hp : s.a.paused = true
+      · simp [hp]
+      simp only [hp, if_false]
       by_cases h1 : s.pendA = [] <;> by_cases h2 : s.a.raaSent < s.needRaaA <;> simp [h1, h2, Sys.swap]
   | sendRaa x =>
     cases x
     · simp only [Ev.swap, step, Sys.swap, Bool.not_false]
+      by_cases hp : s.b.paused = true
+      · simp [hp]
+      simp only [hp, if_false]
       by_cases h : s.b.owesRaa = 0 <;> simp [h, Sys.swap]
     · simp only [Ev.swap, step, Sys.swap, Bool.not_true]
+      by_cases hp : s.a.paused = true
+      · simp [hp]
+      simp only [hp, if_false]
       by_cases h : s.a.owesRaa = 0 <;> simp [h, Sys.swap]
   | recv y =>
     cases y
     · simp only [Ev.swap, step, Sys.swap, Bool.not_false]
+      by_cases hp : s.b.paused = true
+      · simp [hp]
+      simp only [hp, if_false]
       cases s.qab with
       | nil => simp
       | cons m rest => simp only []; cases s.b.onMsg s.total m <;> simp [Sys.swap]
     · simp only [Ev.swap, step, Sys.swap, Bool.not_true]
+      by_cases hp : s.a.paused = true
+      · simp [hp]
+      simp only [hp, if_false]
       cases s.qba with
       | nil => simp
       | cons m rest => simp only []; cases s.a.onMsg s.total m <;> simp [Sys.swap]
+  | disconnect => simp [Ev.swap, step, Sys.swap]
+  | reest y =>
+    cases y
+    · simp only [Ev.swap, step, Sys.swap, Bool.not_false]
+      cases s.b.reestablish s.a.csRecv s.a.raaRecv <;> simp [Sys.swap]
+    · simp only [Ev.swap, step, Sys.swap, Bool.not_true]
+      cases s.a.reestablish s.b.csRecv s.b.raaRecv <;> simp [Sys.swap]
 
 theorem evOk_swap (s : Sys) (e : Ev) : evOk s.swap e.swap = evOk s e := by
   cases e with
@@ -127,6 +160,8 @@ theorem evOk_swap (s : Sys) (e : Ev) : evOk s.swap e.swap = evOk s e := by
   | release x => cases x <;> rfl
   | sendRaa x => cases x <;> rfl
   | recv y => cases y <;> rfl
+  | disconnect => rfl
+  | reest y => cases y <;> rfl
 
 theorem stepG_swap {s s' : Sys} {e : Ev} (h : stepG s e = some s') : stepG s.swap e.swap = some s'.swap := by
   obtain ⟨h1, h2⟩ := stepG_some h
@@ -267,8 +302,24 @@ def full (q pend : List Msg) (need sent owes : Nat) : List Msg :=
   q ++ List.replicate (if pend = [] then 0 else need - sent) Msg.raa ++ pend
     ++ List.replicate (owes - (if pend = [] then 0 else need - sent)) Msg.raa
 
-def Sys.fullAB (s : Sys) : List Msg := full s.qab s.pendA s.needRaaA s.a.raaSent s.a.owesRaa
-def Sys.fullBA (s : Sys) : List Msg := full s.qba s.pendB s.needRaaB s.b.raaSent s.b.owesRaa
+/-- The full a→b stream.  While `a` is paused (disconnected, `channel_reestablish` not yet processed) it is what
+    `a` WILL retransmit: the revoke_and_acks `b` has not seen and, if `b` has not processed `a`'s latest
+    commitment_signed, the regenerated batch — in `resend_order`.  `reest` does not change it. -/
+def Sys.fullAB (s : Sys) : List Msg :=
+  if s.a.paused then full [] (s.a.retrans s.b.csRecv) s.needRaaA s.b.raaRecv (s.a.csRecv - s.b.raaRecv)
+  else full s.qab s.pendA s.needRaaA s.a.raaSent s.a.owesRaa
+def Sys.fullBA (s : Sys) : List Msg :=
+  if s.b.paused then full [] (s.b.retrans s.a.csRecv) s.needRaaB s.a.raaRecv (s.b.csRecv - s.a.raaRecv)
+  else full s.qba s.pendB s.needRaaB s.b.raaSent s.b.owesRaa
+
+theorem Sys.fullAB_unpaused {s : Sys} (h : s.a.paused = false) :
+    s.fullAB = full s.qab s.pendA s.needRaaA s.a.raaSent s.a.owesRaa := by simp [Sys.fullAB, h]
+theorem Sys.fullBA_unpaused {s : Sys} (h : s.b.paused = false) :
+    s.fullBA = full s.qba s.pendB s.needRaaB s.b.raaSent s.b.owesRaa := by simp [Sys.fullBA, h]
+theorem Sys.fullAB_paused {s : Sys} (h : s.a.paused = true) :
+    s.fullAB = full [] (s.a.retrans s.b.csRecv) s.needRaaA s.b.raaRecv (s.a.csRecv - s.b.raaRecv) := by simp [Sys.fullAB, h]
+theorem Sys.fullBA_paused {s : Sys} (h : s.b.paused = true) :
+    s.fullBA = full [] (s.b.retrans s.a.csRecv) s.needRaaB s.a.raaRecv (s.b.csRecv - s.a.raaRecv) := by simp [Sys.fullBA, h]
 
 @[simp] theorem Sys.fullAB_swap (s : Sys) : s.swap.fullAB = s.fullBA := rfl
 @[simp] theorem Sys.fullBA_swap (s : Sys) : s.swap.fullBA = s.fullAB := rfl
@@ -326,100 +377,165 @@ theorem full_pop (m : Msg) (q pend : List Msg) (need sent owes : Nat) :
 /-! ### what an enabled `step` does, event by event -/
 
 theorem step_commit_true {s s' : Sys} {adds fu fa : List Nat} (h : step s (.commit true adds fu fa) = some s') :
-    s.pendA = [] ∧ ∃ n ms, s.a.commit adds fu fa = some (n, ms) ∧
+    s.a.paused = false ∧ s.pendA = [] ∧ ∃ n ms, s.a.commit adds fu fa = some (n, ms) ∧
       s' = { s with a := n, pendA := ms, needRaaA := s.a.raaSent + s.a.owesRaa } := by
   simp only [step] at h
   split at h
   · contradiction
-  · rename_i hp
-    cases hc : s.a.commit adds fu fa with
-    | none => simp [hc] at h
-    | some r =>
-      obtain ⟨n, ms⟩ := r
-      simp only [hc, Option.map_some, Option.some.injEq] at h
-      exact ⟨by simpa using hp, n, ms, rfl, h.symm⟩
+  · rename_i hpa
+    split at h
+    · contradiction
+    · rename_i hp
+      cases hc : s.a.commit adds fu fa with
+      | none => simp [hc] at h
+      | some r =>
+        obtain ⟨n, ms⟩ := r
+        simp only [hc, Option.map_some, Option.some.injEq] at h
+        exact ⟨by simpa using hpa, by simpa using hp, n, ms, rfl, h.symm⟩
 
 theorem step_commit_false {s s' : Sys} {adds fu fa : List Nat} (h : step s (.commit false adds fu fa) = some s') :
-    s.pendB = [] ∧ ∃ n ms, s.b.commit adds fu fa = some (n, ms) ∧
+    s.b.paused = false ∧ s.pendB = [] ∧ ∃ n ms, s.b.commit adds fu fa = some (n, ms) ∧
       s' = { s with b := n, pendB := ms, needRaaB := s.b.raaSent + s.b.owesRaa } := by
   simp only [step] at h
   split at h
   · contradiction
-  · rename_i hp
-    cases hc : s.b.commit adds fu fa with
-    | none => simp [hc] at h
-    | some r =>
-      obtain ⟨n, ms⟩ := r
-      simp only [hc, Option.map_some, Option.some.injEq] at h
-      exact ⟨by simpa using hp, n, ms, rfl, h.symm⟩
+  · rename_i hpa
+    split at h
+    · contradiction
+    · rename_i hp
+      cases hc : s.b.commit adds fu fa with
+      | none => simp [hc] at h
+      | some r =>
+        obtain ⟨n, ms⟩ := r
+        simp only [hc, Option.map_some, Option.some.injEq] at h
+        exact ⟨by simpa using hpa, by simpa using hp, n, ms, rfl, h.symm⟩
 
 theorem step_release_true {s s' : Sys} (h : step s (.release true) = some s') :
-    s.pendA ≠ [] ∧ ¬ s.a.raaSent < s.needRaaA ∧ s' = { s with qab := s.qab ++ s.pendA, pendA := [] } := by
+    s.a.paused = false ∧ s.pendA ≠ [] ∧ ¬ s.a.raaSent < s.needRaaA ∧ s' = { s with qab := s.qab ++ s.pendA, pendA := [] } := by
   simp only [step] at h
   split at h
   · contradiction
-  · rename_i hc
-    simp only [Bool.or_eq_true, decide_eq_true_eq, not_or] at hc
-    injection h with h
-    exact ⟨hc.1, hc.2, h.symm⟩
+  · rename_i hpa
+    split at h
+    · contradiction
+    · rename_i hc
+      simp only [Bool.or_eq_true, decide_eq_true_eq, not_or] at hc
+      injection h with h
+      exact ⟨by simpa using hpa, hc.1, hc.2, h.symm⟩
 
 theorem step_release_false {s s' : Sys} (h : step s (.release false) = some s') :
-    s.pendB ≠ [] ∧ ¬ s.b.raaSent < s.needRaaB ∧ s' = { s with qba := s.qba ++ s.pendB, pendB := [] } := by
+    s.b.paused = false ∧ s.pendB ≠ [] ∧ ¬ s.b.raaSent < s.needRaaB ∧ s' = { s with qba := s.qba ++ s.pendB, pendB := [] } := by
   simp only [step] at h
   split at h
   · contradiction
-  · rename_i hc
-    simp only [Bool.or_eq_true, decide_eq_true_eq, not_or] at hc
-    injection h with h
-    exact ⟨hc.1, hc.2, h.symm⟩
+  · rename_i hpa
+    split at h
+    · contradiction
+    · rename_i hc
+      simp only [Bool.or_eq_true, decide_eq_true_eq, not_or] at hc
+      injection h with h
+      exact ⟨by simpa using hpa, hc.1, hc.2, h.symm⟩
 
 theorem step_sendRaa_true {s s' : Sys} (h : step s (.sendRaa true) = some s') :
-    s.a.owesRaa ≠ 0 ∧
+    s.a.paused = false ∧ s.a.owesRaa ≠ 0 ∧
     s' = { s with a := { s.a with owesRaa := s.a.owesRaa - 1, raaSent := s.a.raaSent + 1 }, qab := s.qab ++ [Msg.raa] } := by
   simp only [step] at h
   split at h
   · contradiction
-  · rename_i hc
-    injection h with h
-    exact ⟨hc, h.symm⟩
+  · rename_i hpa
+    split at h
+    · contradiction
+    · rename_i hc
+      injection h with h
+      exact ⟨by simpa using hpa, hc, h.symm⟩
 
 theorem step_sendRaa_false {s s' : Sys} (h : step s (.sendRaa false) = some s') :
-    s.b.owesRaa ≠ 0 ∧
+    s.b.paused = false ∧ s.b.owesRaa ≠ 0 ∧
     s' = { s with b := { s.b with owesRaa := s.b.owesRaa - 1, raaSent := s.b.raaSent + 1 }, qba := s.qba ++ [Msg.raa] } := by
   simp only [step] at h
   split at h
   · contradiction
-  · rename_i hc
-    injection h with h
-    exact ⟨hc, h.symm⟩
+  · rename_i hpa
+    split at h
+    · contradiction
+    · rename_i hc
+      injection h with h
+      exact ⟨by simpa using hpa, hc, h.symm⟩
 
 theorem step_recv_true {s s' : Sys} (h : step s (.recv true) = some s') :
-    ∃ m rest n ok, s.qba = m :: rest ∧ s.a.onMsg s.total m = some (n, ok) ∧
+    s.a.paused = false ∧ ∃ m rest n ok, s.qba = m :: rest ∧ s.a.onMsg s.total m = some (n, ok) ∧
       s' = { s with a := n, qba := rest, agreed := s.agreed && ok } := by
   simp only [step] at h
   split at h
   · contradiction
-  · rename_i m rest hq
-    cases hc : s.a.onMsg s.total m with
-    | none => simp [hc] at h
-    | some r =>
-      obtain ⟨n, ok⟩ := r
-      simp only [hc, Option.map_some, Option.some.injEq] at h
-      exact ⟨m, rest, n, ok, hq, hc, h.symm⟩
+  · rename_i hpa
+    split at h
+    · contradiction
+    · rename_i m rest hq
+      cases hc : s.a.onMsg s.total m with
+      | none => simp [hc] at h
+      | some r =>
+        obtain ⟨n, ok⟩ := r
+        simp only [hc, Option.map_some, Option.some.injEq] at h
+        exact ⟨by simpa using hpa, m, rest, n, ok, hq, hc, h.symm⟩
 
 theorem step_recv_false {s s' : Sys} (h : step s (.recv false) = some s') :
-    ∃ m rest n ok, s.qab = m :: rest ∧ s.b.onMsg s.total m = some (n, ok) ∧
+    s.b.paused = false ∧ ∃ m rest n ok, s.qab = m :: rest ∧ s.b.onMsg s.total m = some (n, ok) ∧
       s' = { s with b := n, qab := rest, agreed := s.agreed && ok } := by
   simp only [step] at h
   split at h
   · contradiction
-  · rename_i m rest hq
-    cases hc : s.b.onMsg s.total m with
-    | none => simp [hc] at h
-    | some r =>
-      obtain ⟨n, ok⟩ := r
-      simp only [hc, Option.map_some, Option.some.injEq] at h
-      exact ⟨m, rest, n, ok, hq, hc, h.symm⟩
+  · rename_i hpa
+    split at h
+    · contradiction
+    · rename_i m rest hq
+      cases hc : s.b.onMsg s.total m with
+      | none => simp [hc] at h
+      | some r =>
+        obtain ⟨n, ok⟩ := r
+        simp only [hc, Option.map_some, Option.some.injEq] at h
+        exact ⟨by simpa using hpa, m, rest, n, ok, hq, hc, h.symm⟩
+
+theorem step_disconnect {s s' : Sys} (h : step s .disconnect = some s') :
+    s' = { s with a := s.a.pause, b := s.b.pause, qab := [], qba := [] } := by
+  simp only [step] at h
+  injection h with h; exact h.symm
+
+theorem reestablish_some {n n' : Node} {pc pr : Nat} {p : List Msg} (h : n.reestablish pc pr = some (n', p)) :
+    n.paused = true ∧ pr ≤ n.csRecv ∧ n.csRecv ≤ pr + 1 ∧ pc ≤ n.csSent ∧ n.csSent ≤ pc + 1 ∧
+    n' = { n with paused := false, raaSent := pr, owesRaa := n.csRecv - pr } ∧
+    p = n.retrans pc := by
+  unfold Node.reestablish at h
+  split at h
+  · contradiction
+  · rename_i hpa
+    split at h
+    · contradiction
+    · rename_i hc
+      have hc : pr ≤ n.csRecv ∧ n.csRecv ≤ pr + 1 ∧ pc ≤ n.csSent ∧ n.csSent ≤ pc + 1 := by
+        simpa [and_assoc] using hc
+      simp only [Option.some.injEq, Prod.mk.injEq] at h
+      exact ⟨by simpa using hpa, hc.1, hc.2.1, hc.2.2.1, hc.2.2.2, h.1.symm, h.2.symm⟩
+
+theorem step_reest_true {s s' : Sys} (h : step s (.reest true) = some s') :
+    ∃ n p, s.a.reestablish s.b.csRecv s.b.raaRecv = some (n, p) ∧ s' = { s with a := n, pendA := p } := by
+  simp only [step] at h
+  cases hc : s.a.reestablish s.b.csRecv s.b.raaRecv with
+  | none => simp [hc] at h
+  | some r =>
+    obtain ⟨n, p⟩ := r
+    simp only [hc, Option.map_some, Option.some.injEq] at h
+    exact ⟨n, p, rfl, h.symm⟩
+
+theorem step_reest_false {s s' : Sys} (h : step s (.reest false) = some s') :
+    ∃ n p, s.b.reestablish s.a.csRecv s.a.raaRecv = some (n, p) ∧ s' = { s with b := n, pendB := p } := by
+  simp only [step] at h
+  cases hc : s.b.reestablish s.a.csRecv s.a.raaRecv with
+  | none => simp [hc] at h
+  | some r =>
+    obtain ⟨n, p⟩ := r
+    simp only [hc, Option.map_some, Option.some.injEq] at h
+    exact ⟨n, p, rfl, h.symm⟩
 
 /-- counters a message can touch -/
 theorem onMsg_sent_owes {n n' : Node} {total : Nat} {m : Msg} {ok : Bool} (h : n.onMsg total m = some (n', ok)) :
@@ -435,5 +551,113 @@ theorem onMsg_sent_owes {n n' : Node} {total : Nat} {m : Msg} {ok : Bool} (h : n
     split at e
     · contradiction
     · injection e with e; subst e; exact ⟨rfl, rfl⟩
+
+/-! ### counting control messages -/
+
+def countCs (l : List Msg) : Nat := l.countP (fun m => match m with | .cs _ => true | _ => false)
+def countRaa (l : List Msg) : Nat := l.countP (fun m => match m with | .raa => true | _ => false)
+
+theorem countCs_append (l1 l2 : List Msg) : countCs (l1 ++ l2) = countCs l1 + countCs l2 := by
+  simp [countCs, List.countP_append]
+theorem countRaa_append (l1 l2 : List Msg) : countRaa (l1 ++ l2) = countRaa l1 + countRaa l2 := by
+  simp [countRaa, List.countP_append]
+
+theorem countCs_mkAdds (amts : List Nat) : ∀ k, countCs (mkAdds k amts) = 0 := by
+  induction amts with
+  | nil => intro k; rfl
+  | cons a as ih => intro k; simp only [mkAdds, countCs, List.countP_cons]; have := ih (k + 1); simp only [countCs] at this; simp [this]
+theorem countRaa_mkAdds (amts : List Nat) : ∀ k, countRaa (mkAdds k amts) = 0 := by
+  induction amts with
+  | nil => intro k; rfl
+  | cons a as ih => intro k; simp only [mkAdds, countRaa, List.countP_cons]; have := ih (k + 1); simp only [countRaa] at this; simp [this]
+
+theorem count_batch (n : Node) (adds fu fa : List Nat) :
+    countCs (batchOf n adds fu fa) = 1 ∧ countRaa (batchOf n adds fu fa) = 0 := by
+  unfold batchOf
+  refine ⟨?_, ?_⟩
+  · rw [countCs_append, countCs_append, countCs_append, countCs_mkAdds]
+    simp [countCs, List.countP_eq_zero]
+  · rw [countRaa_append, countRaa_append, countRaa_append, countRaa_mkAdds]
+    simp [countRaa, List.countP_eq_zero]
+
+
+theorem countCs_replicate_raa (k : Nat) : countCs (List.replicate k Msg.raa) = 0 := by
+  simp [countCs, List.countP_eq_zero]
+theorem countRaa_replicate_raa (k : Nat) : countRaa (List.replicate k Msg.raa) = k := by
+  induction k with
+  | zero => rfl
+  | succ k ih =>
+    rw [List.replicate_succ]
+    have : countRaa (Msg.raa :: List.replicate k Msg.raa) = countRaa (List.replicate k Msg.raa) + 1 := by
+      simp [countRaa, List.countP_cons]
+    rw [this, ih]
+
+theorem countCs_full (q pend : List Msg) (need sent owes : Nat) :
+    countCs (full q pend need sent owes) = countCs q + countCs pend := by
+  unfold full
+  rw [countCs_append, countCs_append, countCs_append, countCs_replicate_raa, countCs_replicate_raa]; omega
+
+theorem countRaa_full (q pend : List Msg) (need sent owes : Nat) (hn : pend ≠ [] → need ≤ sent + owes) :
+    countRaa (full q pend need sent owes) = countRaa q + countRaa pend + owes := by
+  unfold full
+  rw [countRaa_append, countRaa_append, countRaa_append, countRaa_replicate_raa, countRaa_replicate_raa]
+  by_cases hp : pend = []
+  · simp [hp]
+  · have := hn hp
+    simp only [if_neg hp]; omega
+
+/-- the regenerated batch: one commitment_signed, no revoke_and_ack -/
+theorem count_lastBatch (n : Node) : countCs n.lastBatch = 1 ∧ countRaa n.lastBatch = 0 := by
+  unfold Node.lastBatch
+  refine ⟨?_, ?_⟩
+  · rw [countCs_append, countCs_append, countCs_append]
+    simp [countCs, List.countP_eq_zero]
+  · rw [countRaa_append, countRaa_append, countRaa_append]
+    simp [countRaa, List.countP_eq_zero]
+
+theorem lastBatch_ne_nil (n : Node) : n.lastBatch ≠ [] := by unfold Node.lastBatch; simp
+
+/-- per-message effect on the counters of the receiving node -/
+theorem onMsg_counters {n n' : Node} {total : Nat} {m : Msg} {ok : Bool} (h : n.onMsg total m = some (n', ok)) :
+    n'.csSent = n.csSent ∧ n'.raaSent = n.raaSent ∧
+    (match m with
+     | .cs _ => n'.csRecv = n.csRecv + 1 ∧ n'.owesRaa = n.owesRaa + 1 ∧ n'.raaRecv = n.raaRecv ∧ n'.awaitingRaa = n.awaitingRaa
+     | .raa => n'.csRecv = n.csRecv ∧ n'.owesRaa = n.owesRaa ∧ n'.raaRecv = n.raaRecv + 1 ∧ n.awaitingRaa = true ∧ n'.awaitingRaa = false
+     | _ => n'.csRecv = n.csRecv ∧ n'.owesRaa = n.owesRaa ∧ n'.raaRecv = n.raaRecv ∧ n'.awaitingRaa = n.awaitingRaa) := by
+  cases m with
+  | add id amt => obtain ⟨_, _, e⟩ := onMsg_add h; subst e; exact ⟨rfl, rfl, rfl, rfl, rfl, rfl⟩
+  | fulfill id => obtain ⟨_, _, e⟩ := onMsg_fulfill h; subst e; exact ⟨rfl, rfl, rfl, rfl, rfl, rfl⟩
+  | fail id => obtain ⟨_, _, e⟩ := onMsg_fail h; subst e; exact ⟨rfl, rfl, rfl, rfl, rfl, rfl⟩
+  | cs c => obtain ⟨e, _⟩ := onMsg_cs h; subst e; exact ⟨rfl, rfl, rfl, rfl, rfl, rfl⟩
+  | raa =>
+    obtain ⟨e, _⟩ := onMsg_raa h
+    unfold Node.onRaa at e
+    split at e
+    · contradiction
+    · rename_i haw
+      injection e with e; subst e
+      exact ⟨rfl, rfl, rfl, rfl, rfl, by simpa using haw, rfl⟩
+
+
+theorem onMsg_paused {n n' : Node} {total : Nat} {m : Msg} {ok : Bool} (h : n.onMsg total m = some (n', ok)) :
+    n'.paused = n.paused := by
+  cases m with
+  | add _ _ => obtain ⟨_, _, e⟩ := onMsg_add h; rw [e]
+  | fulfill _ => obtain ⟨_, _, e⟩ := onMsg_fulfill h; rw [e]
+  | fail _ => obtain ⟨_, _, e⟩ := onMsg_fail h; rw [e]
+  | cs _ => obtain ⟨e, _⟩ := onMsg_cs h; rw [e]; rfl
+  | raa =>
+    obtain ⟨e, _⟩ := onMsg_raa h
+    unfold Node.onRaa at e
+    split at e
+    · contradiction
+    · injection e with e; rw [← e]
+
+/-- counters, balance and flags are untouched by a disconnection -/
+theorem pause_fields' (n : Node) : n.pause.valueToSelf = n.valueToSelf ∧ n.pause.awaitingRaa = n.awaitingRaa ∧
+    n.pause.owesRaa = n.owesRaa ∧ n.pause.nextOutId = n.nextOutId ∧ n.pause.csSent = n.csSent ∧
+    n.pause.csRecv = n.csRecv ∧ n.pause.raaSent = n.raaSent ∧ n.pause.raaRecv = n.raaRecv := by
+  unfold Node.pause
+  split <;> exact ⟨rfl, rfl, rfl, rfl, rfl, rfl, rfl, rfl⟩
 
 end Ldk.Chan
